@@ -173,11 +173,13 @@ def run(ctx):
     ctx.floor('C13-ORDER', n, 7, 'handlers replaying undo_funcs')
 
 
-def check_function(ctx, f, creates):
+def check_function(ctx, f, creates, only_cover_locs=None, prefix='C13'):
     repo, cg = ctx.repo, ctx.cg
     g = cg.cfg(f)
     closures = [c for c in f.nested.values() if c.name.startswith('undo')]
     has_param = 'undo_funcs' in f.params
+    if only_cover_locs is not None:
+        return cover_rule(ctx, f, g, closures, has_param, only_cover_locs, prefix)
     # ------------------------------------------------------------ NONE
     for s in walk_no_nested(f.node):
         if isinstance(s, ast.Assign) and any(dotted(t) == 'undo_funcs' for t in s.targets):
@@ -237,6 +239,25 @@ def check_function(ctx, f, creates):
         ctx.ob('C13-STALE.closure-reads-no-loop-variant-variable', f, c.node, not stale,
                '' if not stale else 'closure %s reads %s, which the forward loop reassigns per item: when undoing it sees the value of the last '
                'iteration (its own loop does not rebind it)' % (c.name, stale), expected='unpack the value saved per item in the undo list')
+    cover_rule(ctx, f, g, closures, has_param, None, prefix)
+
+
+def protocol_functions(ctx):
+    repo = ctx.repo
+    core = repo.mod(CORE)
+    out = []
+    for f in repo.rule_funcs():
+        if f.mod is not core or f.parent is not None: continue
+        creates = any(isinstance(s, ast.Assign) and any(dotted(t) == 'undo_funcs' for t in s.targets) and norm(s.value) == '[]'
+                      for s in walk_no_nested(f.node))
+        if 'undo_funcs' in f.params or 'undo' in f.params or creates: out.append((f, creates))
+    return out
+
+
+def cover_rule(ctx, f, g, closures, has_param, only_locs, prefix):
+    fail_points = [n for n in g.nodes if n.ast is not None and n.kind == 'stmt' and (
+        g.is_noreturn_stmt(n.ast) or any(any(dotted(a) in ('undo_funcs',) for a in c.args) or any(dotted(k.value) == 'undo_funcs' for k in c.keywords)
+                                         for c in n.calls()))]
     # ------------------------------------------------------------ COVER
     reg_closures = [c for c in closures if nodes_calling(g, lambda call: dotted(call.func) == 'undo_funcs.append' and call.args and dotted(call.args[0]) == c.name)]
     undo_list_params = [p for p in f.params if p == 'undo']
@@ -247,6 +268,7 @@ def check_function(ctx, f, creates):
     for n in body_nodes:
         if isinstance(n.ast, ast.Assign) and norm(n.ast.value) == 'SetData()': continue              # empty, not-loaded placeholder slot
         for loc, base, kind in mutations(n.ast):
+            if only_locs is not None and loc not in only_locs: continue
             if base in fresh and loc in ('_status_', '_wbits_', '_save_pos_', '_vals_'): continue     # object under construction
             if loc in ('count', 'set', 'addrem') and fresh_setdata_block(f, n.ast, base): continue     # initialising the placeholder just created
             # can a failure follow this mutation?  (functions with an undo parameter: the caller may still fail)
@@ -264,7 +286,7 @@ def check_function(ctx, f, creates):
                 if apps and g.must_pass_after(n, apps, exits=[g.exit]):
                     covered = True; how = 'append to a replayed undo list on every continuing path'
             stx = (' (status left by this branch: %r)' % st_const) if st_const else ''
-            ctx.ob('C13-COVER.mutation-has-registered-undo', f, n.ast, covered,
+            ctx.ob(prefix + '-COVER.mutation-has-registered-undo', f, n.ast, covered,
                    '' if covered else 'forward mutation of %s%s can be followed by a failure%s but no registered undo closure of %s restores '
                    'that location%s' % (loc, (' of ' + base) if base else '', ' in the caller' if has_param else '', f.qual, stx),
                    node=n.ast, expected='restore of %s in a closure appended to undo_funcs' % loc)
